@@ -431,18 +431,45 @@ def d3_maps(prog, rep):
         ix = IdxFunc(prog, f)
         st = [s for s in f.stores() if tag(s.target) == 'index']
         ok = False
-        if len(st) == 1:
+        read = None            # (element value, row variable, (lo, hi) of the row variable, block of the copy) once the copy loop is read
+        if len(st) == 1 and tag(st[0].target[2]) == 'item':
             s = st[0]
-            i = s.target[2]
-            v = s.value
+            r = ix.item_range(s.target[2])
+            if r is not None:
+                read = (s.value, s.target[2], (r[0], r[1]), s.bb)
+        elif not st:
+            # (lo..hi).map(|i| self[i][col]).collect()
+            rets = f.return_values()
+            rv = rets[0] if len(rets) == 1 else None
+            while tag(rv) == 'call' and short(rv[1]) in ('collect', 'from', 'into', 'from_iter', 'new') and rv[2]:
+                nxt = rv[2][0]
+                if tag(nxt) == 'call' and short(nxt[1]) == 'map' and len(nxt[2]) == 2 and tag(nxt[2][1]) == 'agg' and nxt[2][1][1] == 'closure':
+                    it, cl = nxt[2]
+                    while tag(it) == 'call' and short(it[1]) == 'into_iter' and it[2]:
+                        it = it[2][0]
+                    g = prog.func(cl[2])
+                    grv = g.return_values() if g is not None else []
+                    if tag(it) == 'range' and len(grv) == 1:
+                        rowv = ('arg', 2, g.names.get(2))
+                        from ..structs import subst
+                        val = subst(grv[0], {z: cl[3][z[1]] for z in subterms(grv[0]) if tag(z) == 'upvar' and z[1] < len(cl[3])})
+                        bbs = [c.bb for c in f.calls() if c.path and short(c.path) == 'map']
+                        read = (val, rowv, (poly(it[1]), poly(it[2])), bbs[0] if bbs else 0)
+                    break
+                rv = nxt
+        if read is None:
+            rep.undecided('map-signature', key, 'column copy idiom not read (neither an index-store loop nor a map over the row range)', site_of(f.body), proof=False)
+        else:
+            v, i, (lo, hi), bb = read
             # self[i][col]
             okv = tag(v) == 'index' and v[2] == col and tag(v[1]) == 'call' and short(v[1][1]) == 'index' and v[1][2] == (me, i)
-            r = ix.item_range(i) if tag(i) == 'item' else None
-            okr = r is not None and pconst(r[0]) == 0 and peq(r[1], poly(('field', me, 1, 'usize')))
-            gs = [canon_guard(cn, vv) for cn, vv in f.guards().get(s.bb, [])]
+            okr = pconst(lo) == 0 and peq(hi, poly(('field', me, 1, 'usize')))
+            gs = [canon_guard(cn, vv) for cn, vv in f.guards().get(bb, [])]
             okg = any(g[0] == 'cmp' and g[1] == 'Lt' and g[2] == col and g[3] == ('field', me, 2, 'usize') and g[4] for g in gs)
             ok = okv and okr and okg
-        (rep.ok if ok else rep.viol)('map-signature', key, 'v[i] = self[i][col] for i in 0..nrows, col < ncols asserted' if ok else 'column extraction does not copy self[i][col] for every row under a bounds assert', site_of(f.body))
+            (rep.ok if ok else rep.viol)('map-signature', key, 'v[i] = self[i][col] for i in 0..nrows, col < ncols asserted' if ok else
+                                         'column extraction does not copy self[i][col] for every row under a bounds assert (element %s, rows %s, bound asserted: %s)' % (
+                                             show(v)[:40], 'ok' if okr else 'not 0..nrows', okg), site_of(f.body))
     # ---- Matrix::diag: min(nrows, ncols) entries data[i*ncols + i]
     f = prog.func(M + '::diag')
     key = 'map-signature:%s::diag' % M
